@@ -15,7 +15,7 @@ EXTENDS Integers, Sequences, FiniteSets
 
 NoneI == -1
 
-IsSorted(l) == \A i \in 1..Len(l)-1 : l[i] <= l[i+1]
+SortedAsc(l) == \A i \in 1..Len(l)-1 : l[i] <= l[i+1]
 
 MinOf(S) == CHOOSE x \in S : \A y \in S : x <= y
 MaxOf(S) == CHOOSE x \in S : \A y \in S : x >= y
